@@ -9,7 +9,9 @@ package authcrypt
 import (
 	"encoding/base64"
 	"encoding/json"
+	"errors"
 	"fmt"
+	"unicode/utf8"
 
 	"github.com/btcsuite/btcutil/base58"
 	chacha "golang.org/x/crypto/chacha20poly1305"
@@ -87,7 +89,10 @@ func getCEK(recipients []recipient, km kms.KeyManager) (*keys, error) {
 	}
 
 	recip := recipients[recKeyIdx]
-	recKey := base58.Decode(recip.Header.KID)
+	recKey, err := decodeBase58(recip.Header.KID)
+	if err != nil {
+		return nil, fmt.Errorf("getCEK: recipient key: %w", err)
+	}
 
 	senderPub, senderPubCurve, err := decodeSender(recip.Header.Sender, recKey, km)
 	if err != nil {
@@ -129,7 +134,12 @@ func findVerKey(km kms.KeyManager, candidateKeys []string) (int, error) {
 	var errs []error
 
 	for i, key := range candidateKeys {
-		recKID, err := jwkkid.CreateKID(base58.Decode(key), kms.ED25519Type)
+		keyBytes, err := decodeBase58(key)
+		if err != nil {
+			return -1, err
+		}
+
+		recKID, err := jwkkid.CreateKID(keyBytes, kms.ED25519Type)
 		if err != nil {
 			return -1, err
 		}
@@ -161,7 +171,10 @@ func decodeSender(b64Sender string, pk []byte, km kms.KeyManager) ([]byte, []byt
 		return nil, nil, err
 	}
 
-	senderData := base58.Decode(string(senderPub))
+	senderData, err := decodeBase58(string(senderPub))
+	if err != nil {
+		return nil, nil, fmt.Errorf("decodeSender: %w", err)
+	}
 
 	senderPubCurve, err := cryptoutil.PublicEd25519toCurve25519(senderData)
 	if err != nil {
@@ -196,6 +209,11 @@ func (p *Packer) decodeCipherText(cek *[chacha.KeySize]byte, envelope *legacyEnv
 		return nil, err
 	}
 
+	// the AEAD panics on a nonce of the wrong length
+	if len(nonce) != chacha.NonceSize {
+		return nil, errors.New("decodeCipherText: invalid nonce size")
+	}
+
 	payload := append(cipherText, tag...)
 
 	message, err = chachaCipher.Open(nil, nonce, payload, aad)
@@ -204,4 +222,16 @@ func (p *Packer) decodeCipherText(cek *[chacha.KeySize]byte, envelope *legacyEnv
 	}
 
 	return message, nil
+}
+
+// decodeBase58 decodes untrusted base58 text. The base58 library indexes its alphabet table with each character and
+// panics on anything outside of the table's range (any byte that is not ASCII), so such input is rejected first.
+func decodeBase58(s string) ([]byte, error) {
+	for i := 0; i < len(s); i++ {
+		if s[i] >= utf8.RuneSelf {
+			return nil, errors.New("invalid base58 text")
+		}
+	}
+
+	return base58.Decode(s), nil
 }
